@@ -310,7 +310,7 @@ def vmdk(capacity_sectors=2048, version=1, desc_sec=1, desc_num=2,
                        sig=sig, compressed=with_footer)
     desc_region = pad_to(descriptor, desc_num * 512)
     body = bytearray(head)
-    bounds = [4, 8, 12, 20, 28, 36, 44, 56, 64, 512]
+    bounds = [4, 8, 12, 20, 28, 36, 44, 56, 64, 72, 73, 77, 79, 512]
     if desc_sec * 512 > len(body):
         body += bytes(desc_sec * 512 - len(body))
     desc_at = desc_sec * 512
